@@ -45,12 +45,15 @@ def verify(seed_dir: str, run_suite: bool = True):
             rc, out = sh("/venv/bin/python -m pytest -q -p no:cacheprovider -n 4 2>&1 | grep -E '[0-9]+ passed' | tail -1", cwd=wt, env=env, timeout=1200)
             res["suite"] = out.strip()[-60:]
         fired, errs = [], []
-        for p in PROPS:
-            rc, out = sh(f"./check {p} --tier quick", cwd="/verif", env={"JASMSA_REPO": wt})
-            if rc == 1:
-                fired.append(p)
-            elif rc != 0:
-                errs.append(p)
+
+        def one(p):
+            return p, sh(f"./check {p} --tier quick", cwd="/verif", env={"JASMSA_REPO": wt, "JASMSA_JOBS": "2"})[0]
+        with cf.ThreadPoolExecutor(5) as ex2:
+            for p, rc in ex2.map(one, PROPS):
+                if rc == 1:
+                    fired.append(p)
+                elif rc != 0:
+                    errs.append(p)
         res["fired"], res["analysis_errors"] = fired, errs
         res["ok"] = (res["demo_clean_rc"] == 0 and res["demo_patched_rc"] != 0 and res.get("compiles") and
                      (not run_suite or ("129 passed" in res["suite"] and "3 failed" in res["suite"])))
@@ -65,6 +68,6 @@ if __name__ == "__main__":
     seeds = sorted(str(p.parent) for p in root.glob("*/*/patch.diff")) or sorted(str(p.parent) for p in root.glob("*/patch.diff"))
     if len(sys.argv) > 2:
         seeds = [s for s in seeds if any(x in s for x in sys.argv[2:])]
-    with cf.ThreadPoolExecutor(4) as ex:
+    with cf.ThreadPoolExecutor(3) as ex:
         for r in ex.map(verify, seeds):
             print(json.dumps(r), flush=True)
